@@ -1,3 +1,19 @@
+// ---- total maps int -> u64 (register file, memory), as functions: read-over-write by beta reduction ----
+pub struct Tot {
+    pub f: spec_fn(int) -> u64,
+}
+
+impl Tot {
+    #[verifier::inline]
+    pub open spec fn spec_index(self, i: int) -> u64 { (self.f)(i) }
+
+    pub open spec fn insert(self, k: int, v: u64) -> Tot {
+        Tot { f: |x: int| if x == k { v } else { (self.f)(x) } }
+    }
+
+    pub open spec fn total(g: spec_fn(int) -> u64) -> Tot { Tot { f: g } }
+}
+
 // ---- spec/common.rs : wrapping 64-bit arithmetic shared by the three ISA specifications (trusted, T1) ----
 pub open spec fn pow64() -> int { 0x1_0000_0000_0000_0000 }
 
@@ -42,7 +58,6 @@ pub open spec fn div_defined(a: u64, b: u64) -> bool {
 pub open spec fn wdiv(a: u64, b: u64) -> u64 { wrap(tdiv(u2i(a) as int, u2i(b) as int)) }
 
 /// remainder of truncating division: a - (a / b) * b, in wrapping arithmetic
-#[verifier::opaque]
 pub open spec fn wrem(a: u64, b: u64) -> u64 { wsub(a, wmul(wdiv(a, b), b)) }
 
 pub open spec fn slt(a: u64, b: u64) -> bool { u2i(a) < u2i(b) }
@@ -62,4 +77,21 @@ pub broadcast proof fn lemma_wmul_comm(a: u64, b: u64)
 {
     reveal(wmul);
     assert(a as int * b as int == b as int * a as int) by (nonlinear_arith);
+}
+
+/// small-offset pointer arithmetic does not wrap
+pub broadcast proof fn lemma_wsub_small(a: u64, k: i64)
+    requires 0 <= k <= a,
+    ensures #[trigger] wsub(a, i2u(k)) == a - k,
+{
+    reveal(wsub);
+    reveal(wrap);
+}
+
+pub broadcast proof fn lemma_wadd_small(a: u64, k: i64)
+    requires 0 <= k, a + k < pow64(),
+    ensures #[trigger] wadd(a, i2u(k)) == a + k,
+{
+    reveal(wadd);
+    reveal(wrap);
 }
